@@ -59,7 +59,10 @@ def check(run):
     from . import C05
     C05.awaitables_fresh(R, RID='C17.closure')     # read requests are per read, not module / parser-lifetime objects
     from .common import oneshot_fields
-    oneshot_fields(R, 'C17.closure')               # what a second connect() reads again can be read again
+    oneshot_fields(R, 'C17.closure')
+    from . import C09 as _C09
+    with R.as_rule('C17.session'):
+        _C09.tryall(R)           # every connect() resolves the host again and walks the addresses it got (no address memo)               # what a second connect() reads again can be read again
 
 
 def _is_fresh_state(R, ctx, v):
